@@ -63,8 +63,8 @@ def ensure_repo_on_path():
 
 def outdir(*parts):
     d = os.path.join(OUT, *parts)
-    if not os.path.isdir(d):
-        os.makedirs(d)
+    # forked workers may get here together: no check-then-create
+    os.makedirs(d, exist_ok=True)
     return d
 
 
